@@ -373,7 +373,11 @@ func (f *ft) expr(e ast.Expr, en *env, want kind) exprRes {
 			}
 			return res
 		}
-		x.fail(v.Pos(), "boolean expression used as a value: %s", x.text(v))
+		switch v.Op {
+		case token.LAND, token.LOR, token.EQL, token.NEQ, token.LSS, token.LEQ, token.GTR, token.GEQ:
+			x.fail(v.Pos(), "boolean expression used as a value: %s", x.text(v))
+		}
+		x.fail(v.OpPos, "operator %s in %s (only + - * / %% and comparisons are translated)", v.Op, x.text(v))
 	case *ast.CallExpr:
 		return f.call(v, en)
 	}
@@ -418,7 +422,7 @@ func (f *ft) call(c *ast.CallExpr, en *env) exprRes {
 	}
 	sel, ok := c.Fun.(*ast.SelectorExpr)
 	if !ok {
-		x.fail(c.Pos(), "call %s in expression position (calls of translated functions are supported as `v, err := f(..)` and `return f(..)`)", x.text(c))
+		x.fail(c.Pos(), "call %s in expression position (only conversions, math.IsInf, the decimal functions of the subset; calls of translated functions only as `v, err := f(..)` and `return f(..)`)", x.text(c))
 	}
 	if x.isPkg(sel.X, decimalPath) {
 		switch sel.Sel.Name {
@@ -871,7 +875,7 @@ func (f *ft) callStmt(names []string, callee *fsig, c *ast.CallExpr, en *env, in
 	x := f.x
 	n := len(callee.results)
 	if !callee.hasErr {
-		x.fail(c.Pos(), "call of %s, which has no error result, as a statement (not needed by currency.go)", callee.goName)
+		x.fail(c.Pos(), "call %s of a helper without an error result (calls between translated functions are supported only as `v, err := f(..)` and `return f(..)` with an error result)", x.text(c))
 	}
 	if len(names) != n+1 {
 		x.fail(c.Pos(), "%s returns %d values", callee.goName, n+1)
